@@ -27,6 +27,7 @@ ASSUMPTIONS = [
     "deferral of responses that cannot be handled yet is supplied by the harness (documented subclassing point "
     "_wait_to_handle_epr_responses); deferred responses are retried after every instruction",
     "each request is awaited inside the subroutine that issued it (as every SDK-emitted subroutine does)",
+    "the network stack maps (remote node, socket id) to purpose id = socket id + k for a drawn k (the mapping is the stack's choice)",
     "a wait that is still blocked when no response is in flight is reported as a lost response",
 ]
 SHARDS = {"quick": 4, "thorough": 16}
@@ -89,7 +90,7 @@ def st_scenario(draw):
             ops.append(["filler"])
         subs.append(ops)
     schedule = draw(st.lists(st.integers(0, 5), min_size=0, max_size=60))
-    return {"reqs": reqs, "subs": subs, "schedule": schedule}
+    return {"reqs": reqs, "subs": subs, "schedule": schedule, "purpose_offset": draw(st.sampled_from([0, 1, 1, 7]))}
 
 
 def addr(i, what):
@@ -206,10 +207,10 @@ class Scheduler:
             phys = self.ex._get_unused_physical_qubit()
             rec["phys"] = phys
             resp = LinkLayerOKTypeK(type=ReturnType.OK_K, create_id=rec["create_id"], logical_qubit_id=phys, directionality_flag=direction,
-                                    sequence_number=rec["seq"], purpose_id=r["sock"], remote_node_id=r["remote"], goodness=rec["goodness"], goodness_time=3, bell_state=rec["bell"])
+                                    sequence_number=rec["seq"], purpose_id=r["sock"] + self.stack.purpose_offset, remote_node_id=r["remote"], goodness=rec["goodness"], goodness_time=3, bell_state=rec["bell"])
         else:
             resp = LinkLayerOKTypeM(type=ReturnType.OK_M, create_id=rec["create_id"], measurement_outcome=rec["outcome"], measurement_basis=0, directionality_flag=direction,
-                                    sequence_number=rec["seq"], purpose_id=r["sock"], remote_node_id=r["remote"], goodness=rec["goodness"], bell_state=rec["bell"])
+                                    sequence_number=rec["seq"], purpose_id=r["sock"] + self.stack.purpose_offset, remote_node_id=r["remote"], goodness=rec["goodness"], bell_state=rec["bell"])
         rec["fields"] = [x.value if hasattr(x, "value") else x for x in resp]
         self.delivered.append(rec)
         self.ex._handle_epr_response(resp)
@@ -273,6 +274,7 @@ def run(scn) -> Dict[str, Any]:
     ex = Ex("node")
     ex._node_id_value = 0
     stack = net.ScriptedNetworkStack(ex)
+    stack.purpose_offset = scn.get("purpose_offset", 0)
     ex.network_stack = stack
     ex.init_new_application(0, 12)
     sched = Scheduler(scn, ex, stack, scn["schedule"])
@@ -368,6 +370,7 @@ def shard(ctx: Ctx) -> None:
         keys = [(r["remote"], r["sock"], r["role"]) for r in scn["reqs"]]
         if len(set(keys)) < len(keys):
             labels.append("same-key-requests")
+        labels.append(f"purpose_offset:{scn.get('purpose_offset', 0)}")
         stt.case(scn, nt, labels, sample=scn if len(str(scn)) < 900 else None)
 
     ctx.search(st_scenario(), body, n, name="c12")
